@@ -366,7 +366,8 @@ EbErrorType load_default_buffer_configuration_settings(
     unsigned int lp_count   = get_num_processors();
     unsigned int core_count = lp_count;
 #if defined(_WIN32) || defined(__linux__)
-    if (scs_ptr->static_config.target_socket != -1)
+    // num_groups stays 0 when /proc/cpuinfo has no "physical id" lines or cannot be read
+    if (scs_ptr->static_config.target_socket != -1 && num_groups > 1)
         core_count /= num_groups;
 #endif
     if (scs_ptr->static_config.logical_processors != 0)
